@@ -22,8 +22,9 @@ theorem taskIsBlocked_eq (s : State) (t : TaskId) : Gen.taskIsBlocked (view s t)
 
 theorem taskIsRunnable_eq (s : State) (t : TaskId) : Gen.taskIsRunnable (view s t) = isRunnable s t := by
   unfold Gen.taskIsRunnable isRunnable
-  rw [taskIsBlocked_eq]
-  rfl
+  simp only [taskIsBlocked_eq]
+  -- by cases, so that `not (a or b)`, early returns and nested ifs all go through
+  cases isBlocked s t <;> cases hd : (s.tasks t).done <;> simp [view, hd]
 
 /-- what `task_from_handle` / `is_task_callback` read of the callback of a kernel handle
     (`py t`: task `t` is a Python task — bound methods `__step` / `__wakeup` of type `method`; else a
